@@ -8,8 +8,8 @@
    (search = scan for spans that cover their contents), the section bytes -> entries step is
    C02_section_codec. *)
 From Coq Require Import Sorting.Sorted.
-From BT Require Import Base.Util Base.Float Model.RTree Model.BBIFile Model.BigWigWrite Model.BBIRead
-  Model.BigBedWrite Model.BBIReadBed Proofs.Chunks Proofs.BedQuery.
+From BT Require Import Base.Util Base.Float Model.RTree Model.BBIFile Model.BigWigWrite Model.BBIRead Model.CachedRead
+  Model.BigBedWrite Model.BBIReadBed Proofs.Chunks Proofs.RTreeCodec Proofs.BedQuery Proofs.BedCached Proofs.BedEndToEnd Proofs.BedZoomFit.
 Local Open Scope N_scope.
 
 (* KEY LEMMA (what defect D2 broke): a block whose span [first start, largest end] does not meet
@@ -54,6 +54,58 @@ Theorem C04_refuted_unrepaired :
   exists c s e, starts_sorted c /\ bchunk_hit_last s e c = false /\ filter (bkeep s e) c <> [].
 Proof. exact last_end_refuted. Qed.
 Print Assumptions C04_refuted_unrepaired.
+
+(* THE FILE LEVEL: on the bytes of every file the writer model produces (any options, any summary
+   sweep, any zoom part of at most 10 levels; hypotheses file_hyps as in Properties/C02.v), the
+   reader model's interval query on any chromosome that had data returns exactly the entries with
+   end >= s and start <= e, in stored order, each once.  Through read_info, the index search on the
+   index bytes (C05), the block offsets and the record codec. *)
+Theorem C04_file_query : forall (sweep : list bchrom -> summary)
+    (zoom_part : list bchrom -> summary -> N -> N -> res (list N * list zoom_header)),
+  (forall outs sum a b zb zh, zoom_part outs sum a b = Ok (zb, zh) -> (length zh <= 10)%nat) ->
+  forall o sizes autosql input f, bb_write_gen sweep zoom_part o sizes autosql input = Ok f ->
+  file_hyps o sizes input f ->
+  exists i, read_info f = Ok i /\ forall infl c es s e, In (c, es) (bruns input) ->
+    bb_interval infl f i c s e = Ok (filter (bkeep s e) es).
+Proof. exact file_query. Qed.
+Print Assumptions C04_file_query.
+
+(* ... in particular for the two real write paths with the summary sweep and zoom levels of
+   Model/BedSweep.v, in every floating-point mode (the writers never emit more than 10 levels) *)
+Theorem C04_written_file_query : forall two_pass fp o sizes autosql input f,
+  bb_write_either two_pass fp o sizes autosql input = Ok f -> file_hyps o sizes input f ->
+  exists i, read_info f = Ok i /\ forall infl c es s e, In (c, es) (bruns input) ->
+    bb_interval infl f i c s e = Ok (filter (bkeep s e) es).
+Proof. exact written_file_query. Qed.
+Print Assumptions C04_written_file_query.
+
+(* the property's own wording on the file *)
+Theorem C04_file_no_miss_no_disjoint : forall (sweep : list bchrom -> summary)
+    (zoom_part : list bchrom -> summary -> N -> N -> res (list N * list zoom_header)),
+  (forall outs sum a b zb zh, zoom_part outs sum a b = Ok (zb, zh) -> (length zh <= 10)%nat) ->
+  forall o sizes autosql input f, bb_write_gen sweep zoom_part o sizes autosql input = Ok f ->
+  file_hyps o sizes input f ->
+  exists i, read_info f = Ok i /\ forall infl c es s e, In (c, es) (bruns input) ->
+    exists ans, bb_interval infl f i c s e = Ok ans
+      /\ (forall x, In x es -> e_start x < e -> s < e_end x -> In x ans)
+      /\ (forall x, In x ans -> In x es /\ s <= e_end x /\ e_start x <= e)
+      /\ ans = filter (bkeep s e) es.
+Proof. exact file_no_miss_no_disjoint. Qed.
+Print Assumptions C04_file_no_miss_no_disjoint.
+
+(* HISTORY: for ANY byte image and header info, every answer of every finite query history through
+   one caching reader (node map, block map, reset of the block map at CACHE_LIMIT entries) equals the
+   stateless reader's answer to that query; in particular earlier queries never change a later
+   answer.  Invariant: every cached node / block equals a fresh read of its key. *)
+Theorem C04_history : forall infl bs i qs,
+  c_bb_history infl bs i cache0 qs = map (fun q => bb_interval infl bs i (fst (fst q)) (snd (fst q)) (snd q)) qs.
+Proof. intros infl bs i qs. apply c_bb_history_ok. apply cache0_ok. Qed.
+Print Assumptions C04_history.
+(* ... and from any reachable cache state (e.g. a reopened reader that copied the maps) *)
+Theorem C04_history_from : forall infl bs i c qs, cache_ok infl bs i c ->
+  c_bb_history infl bs i c qs = map (fun q => bb_interval infl bs i (fst (fst q)) (snd (fst q)) (snd q)) qs.
+Proof. intros infl bs i c qs H. apply c_bb_history_ok. exact H. Qed.
+Print Assumptions C04_history_from.
 
 (* Non-vacuity *)
 Example C04_example : let es := [ {| e_start := 0; e_end := 1000; e_rest := [] |}; {| e_start := 10; e_end := 20; e_rest := [] |};
